@@ -174,7 +174,7 @@ theorem toyLaws : Laws toyCtx where
     intro m
     show (List.replicate 32 (0 : UInt8)).length = 32
     exact List.length_replicate
-  kwp_len := fun _ _ => rfl
+  kwp_len := fun _ _ _ => rfl
   kwp_inv := fun _ _ _ _ => rfl
 
 /-! ### non-vacuity witnesses -/
